@@ -100,10 +100,14 @@ func deleteRawUnminedInput(ns mwdb.Bucket, k []byte) error {
 
 // fetchUnminedInputSpendTxHashes fetches the list of unmined transactions that
 // spend the serialized outpoint.
-func fetchUnminedInputSpendTxHashes(ns mwdb.Bucket, k []byte) []wire.Hash {
-	rawSpendTxHashes, _ := ns.Get(k)
+func fetchUnminedInputSpendTxHashes(ns mwdb.Bucket, k []byte) ([]wire.Hash, error) {
+	rawSpendTxHashes, err := ns.Get(k)
+	if err != nil {
+		// a failed read is not "no spender"
+		return nil, err
+	}
 	if rawSpendTxHashes == nil {
-		return nil
+		return nil, nil
 	}
 
 	// Each transaction hash is 32 bytes.
@@ -115,7 +119,7 @@ func fetchUnminedInputSpendTxHashes(ns mwdb.Bucket, k []byte) []wire.Hash {
 		rawSpendTxHashes = rawSpendTxHashes[32:]
 	}
 
-	return spendTxHashes
+	return spendTxHashes, nil
 }
 
 //    credit
